@@ -41,3 +41,10 @@ Definition as_opt {A} (f : sx -> option A) (s : sx) : option (option A) :=
 Definition code_of (corr_ok prop_ok : bool) : N :=
   ((if corr_ok then 0 else 1) + (if prop_ok then 0 else 2))%N.
 Definition code_undecodable : N := 4%N.
+(** properties with recorded known findings: [known_ok] is the specification
+    predicate with EXACTLY the recorded deviation allowed (everything else the
+    property demands still holds).  Bit 3 (8) = the specification fails and
+    even the relaxed predicate fails: such a case is reported as a violation
+    although its input carries a known-finding tag. *)
+Definition code_of3 (corr_ok prop_ok known_ok : bool) : N :=
+  (code_of corr_ok prop_ok + (if prop_ok then 0 else if known_ok then 0 else 8))%N.
